@@ -82,6 +82,36 @@ def t_truth(u, v):
     return r + [x for x in range(2) if x]
 
 
+def t_base(u, v):
+    r = []
+    try:
+        if u == v:
+            r.append("T")
+        else:
+            r.append("F")
+    except BaseException as exc:
+        r.append(type(exc).__name__)
+    if len(r) > 0:
+        r.append("after")
+    try:
+        if v:
+            r.append("truthy")
+    except:  # noqa: E722
+        r.append("bare")
+    for i in range(2):
+        if i:
+            r.append(i)
+    try:
+        if u < v:
+            r.append("lt")
+    except BaseException:
+        r.append("base2")
+    k = 1
+    while k > 0:
+        k -= 1
+    return r
+
+
 def t_nested(u, v):
     r = []
     for i in range(2):
@@ -119,7 +149,7 @@ def t_attr(u, v):
     return r
 '''
 OPS = {"lt": "<", "le": "<=", "eq": "==", "ne": "!=", "in": "in", "notin": "not in", "ge": ">="}
-RAISING = ["u-onlylt1", "u-onlyeq1", "u-raiseq", "u-raisebool", "u-len0", "u-contains", "u-plain", "int1", "s-a", "none", "fnan", "int10^400",
+RAISING = ["u-onlylt1", "u-onlyeq1", "u-raiseq", "u-raisebool", "u-raisebase", "u-len0", "u-contains", "u-plain", "int1", "s-a", "none", "fnan", "int10^400",
            "set-1", "l-123", "u-nonbooleq1", "dec1.5", "c1+2j"]
 SUBSETS = [("BRANCH",), ("LINE",), ("BRANCH", "LINE"), ("BRANCH", "LINE", "CHECKED"), ("CHECKED",)]
 
@@ -127,7 +157,8 @@ SUBSETS = [("BRANCH",), ("LINE",), ("BRANCH", "LINE"), ("BRANCH", "LINE", "CHECK
 def floors(tier):
     return {"evals": 1500 if tier == "quick" else 15000, "distinct": 500,
             "classes": {"swallowed-exception-then-more-code": 300, "executor:statements-checked": 100, "executor:swallowed": 20,
-                        "subset:BRANCH+LINE+CHECKED": 100, "attr-raises-under-CHECKED": 10}}
+                        "subset:BRANCH+LINE+CHECKED": 100, "attr-raises-under-CHECKED": 10,
+                        "swallowed-base-exception-then-more-code": 30}}
 
 
 def plan(tier, seed):
@@ -157,7 +188,7 @@ def _functions_chunk(spec, ctx):
     fn = str(ctx.scratch / "vp_c05.py")
     open(fn, "w").write(src)
     src_lines = src.splitlines()
-    funcs = [f"t_cmp_{n}" for n in OPS] + ["t_truth", "t_nested", "t_attr"]
+    funcs = [f"t_cmp_{n}" for n in OPS] + ["t_truth", "t_nested", "t_attr", "t_base"]
     cases = list(itertools.product(funcs, RAISING, RAISING))
     rng = random.Random(spec["seed"] * 977 + 5)
     names = [n for n, _, _ in V.VALUES]
@@ -169,7 +200,7 @@ def _functions_chunk(spec, ctx):
     refs = []
     for f, a, b in cases:
         out, lines, branches, entered = twin.call(f, (V.fresh(a), V.fresh(b)))
-        swallowed = out.kind == "ret" and any(isinstance(x, str) and (x.endswith("Error") or x in ("te", "ex", "ae", "ex2")) for x in out.value)
+        swallowed = out.kind == "ret" and any(isinstance(x, str) and (x.endswith("Error") or x in ("te", "ex", "ae", "ex2", "Cancelled", "bare", "base2")) for x in out.value)
         refs.append((out, {ln for _, ln in lines}, branches, swallowed))
     import dis
 
@@ -195,6 +226,8 @@ def _functions_chunk(spec, ctx):
             cl = [f"subset:{tag}"]
             if swallowed:
                 cl.append("swallowed-exception-then-more-code")
+            if ref.kind == "ret" and any(x in ("Cancelled", "bare", "base2") for x in ref.value if isinstance(x, str)):
+                cl.append("swallowed-base-exception-then-more-code")
             if f == "t_attr" and "CHECKED" in sub:
                 cl.append("attr-raises-under-CHECKED")
             ctx.ok(cls=cl, distinct=f"{f}|{a}|{b}|{tag}" if swallowed else None)
